@@ -750,6 +750,29 @@ def normalise_loops(fn):
     return fn
 
 
+def cmp_norm(test):
+    """(op, left text, right text) of a single comparison with > and >= mirrored into < and <= ( 0.1 > x  ->  x < 0.1 ), 'not'
+    folded into the operator; None for anything else"""
+    neg = False
+    while isinstance(test, ast.UnaryOp) and isinstance(test.op, ast.Not):
+        test, neg = test.operand, not neg
+    if not (isinstance(test, ast.Compare) and len(test.ops) == 1):
+        return None
+    op = type(test.ops[0]).__name__
+    l, r = test.left, test.comparators[0]
+    if neg:
+        flip = {"Lt": "GtE", "LtE": "Gt", "Gt": "LtE", "GtE": "Lt", "Eq": "NotEq", "NotEq": "Eq", "Is": "IsNot", "IsNot": "Is", "In": "NotIn", "NotIn": "In"}
+        if op not in flip:
+            return None
+        op = flip[op]
+    if op in ("Gt", "GtE"):
+        op, l, r = {"Gt": "Lt", "GtE": "LtE"}[op], r, l
+    ls, rs_ = src(l).replace(" ", ""), src(r).replace(" ", "")
+    if op in ("Eq", "NotEq") and ls > rs_:
+        ls, rs_ = rs_, ls
+    return (op, ls, rs_)
+
+
 def unique_defs(fn):
     """name -> value node for local names assigned exactly once in fn by a plain 'name = value' statement"""
     count = {}
